@@ -9,7 +9,7 @@ use garble_lang::ast::{
     Accessor, ConstExprEnum, Expr, ExprEnum, Op, Pattern, PatternEnum, Stmt, StmtEnum, Type, UnaryOp,
     VariantExprEnum,
 };
-use garble_lang::token::{SignedNumType, UnsignedNumType};
+use garble_lang::token::{MetaInfo, SignedNumType, UnsignedNumType};
 use serde_json::{Value, json};
 
 use crate::guarded;
@@ -20,9 +20,15 @@ struct Cx<'a> {
     sizes: HashMap<String, usize>,
     /// constructs the value-level model of the compiler (`Model/BitSem.lean`) does not cover
     uses: BTreeSet<&'static str>,
+    /// the operations that can fail at run time: the panics they can raise and their location in the text
+    sites: Vec<Value>,
 }
 
 type R = Result<Value, String>;
+
+fn meta_json(m: &MetaInfo) -> Value {
+    json!([m.start.0, m.start.1, m.end.0, m.end.1])
+}
 
 impl<'a> Cx<'a> {
     fn ty(&self, t: &Type) -> R {
@@ -88,7 +94,11 @@ impl<'a> Cx<'a> {
                 Some(n) => json!(["repeat", self.expr(x)?, n]),
                 None => return Err(format!("array size {c} is not known")),
             },
-            ExprEnum::ArrayAccess(a, i) => json!(["index", self.expr(a)?, self.expr(i)?]),
+            ExprEnum::ArrayAccess(a, i) => {
+                let k = self.sites.len();
+                self.sites.push(json!({"kinds": ["OutOfBounds"], "meta": meta_json(&e.meta), "node": "index"}));
+                json!(["index", self.expr(a)?, self.expr(i)?, {"site": k}])
+            }
             ExprEnum::TupleLiteral(es) => json!(["tuple", self.exprs(es)?]),
             ExprEnum::TupleAccess(t, i) => json!(["tget", self.expr(t)?, i]),
             ExprEnum::StructAccess(s, f) => json!(["field", self.expr(s)?, f]),
@@ -111,11 +121,14 @@ impl<'a> Cx<'a> {
                 json!(["match", self.expr(s)?, out])
             }
             ExprEnum::UnaryOp(op, x) => {
-                let name = match op {
-                    UnaryOp::Neg => "neg",
-                    UnaryOp::Not => "not",
-                };
-                json!(["un", name, self.ty(&x.ty)?, self.expr(x)?])
+                match op {
+                    UnaryOp::Neg => {
+                        let k = self.sites.len();
+                        self.sites.push(json!({"kinds": ["Overflow"], "meta": meta_json(&e.meta), "node": "un"}));
+                        json!(["un", "neg", self.ty(&x.ty)?, self.expr(x)?, {"site": k}])
+                    }
+                    UnaryOp::Not => json!(["un", "not", self.ty(&x.ty)?, self.expr(x)?]),
+                }
             }
             ExprEnum::Op(op, a, b) => {
                 let sym = match op {
@@ -136,6 +149,18 @@ impl<'a> Cx<'a> {
                     Op::ShortCircuitAnd => "&&",
                     Op::ShortCircuitOr => "||",
                 };
+                let mut site = None;
+                match op {
+                    Op::Add | Op::Sub | Op::Mul | Op::ShiftLeft | Op::ShiftRight => {
+                        site = Some(self.sites.len());
+                        self.sites.push(json!({"kinds": ["Overflow"], "meta": meta_json(&e.meta), "node": "bin"}))
+                    }
+                    Op::Div | Op::Mod => {
+                        site = Some(self.sites.len());
+                        self.sites.push(json!({"kinds": ["DivByZero", "Overflow"], "meta": meta_json(&e.meta), "node": "bin"}))
+                    }
+                    _ => {}
+                }
                 if let Op::Mul = op {
                     for x in [a, b] {
                         if let ExprEnum::NumSigned(n, _) = &x.inner {
@@ -145,7 +170,10 @@ impl<'a> Cx<'a> {
                         }
                     }
                 }
-                json!(["bin", sym, self.ty(&a.ty)?, self.expr(a)?, self.expr(b)?])
+                match site {
+                    Some(k) => json!(["bin", sym, self.ty(&a.ty)?, self.expr(a)?, self.expr(b)?, {"site": k}]),
+                    None => json!(["bin", sym, self.ty(&a.ty)?, self.expr(a)?, self.expr(b)?]),
+                }
             }
             ExprEnum::Block(ss) => json!(["block", self.stmts(ss)?]),
             ExprEnum::FnCall(f, args) => json!(["call", f, self.exprs(args)?]),
@@ -171,6 +199,9 @@ impl<'a> Cx<'a> {
             StmtEnum::Let(p, _, e) => json!(["let", self.pat(p)?, self.expr(e)?]),
             StmtEnum::LetMut(x, _, e) => json!(["letmut", x, self.expr(e)?]),
             StmtEnum::VarAssign(x, path, e) => {
+                if path.iter().any(|(a, _)| matches!(a, Accessor::ArrayAccess { .. })) {
+                    self.sites.push(json!({"kinds": ["OutOfBounds"], "meta": meta_json(&s.meta), "node": "assign"}));
+                }
                 let mut steps = vec![];
                 for (a, _) in path {
                     steps.push(match a {
@@ -192,8 +223,8 @@ impl<'a> Cx<'a> {
 }
 
 /// the program of the model, or why the program is outside the modelled language
-pub fn program_json(prg: &TypedProgram) -> Result<(Value, Vec<&'static str>), String> {
-    let mut cx = Cx { prg, sizes: HashMap::new(), uses: BTreeSet::new() };
+pub fn program_json(prg: &TypedProgram) -> Result<(Value, Vec<&'static str>, Vec<Value>), String> {
+    let mut cx = Cx { prg, sizes: HashMap::new(), uses: BTreeSet::new(), sites: vec![] };
     // constants: only those written as literals (no external values, no constant expressions)
     let mut consts = vec![];
     let mut const_tys = vec![];
@@ -236,7 +267,7 @@ pub fn program_json(prg: &TypedProgram) -> Result<(Value, Vec<&'static str>), St
         enums.push(json!([n, t["variants"]]));
     }
     let uses = cx.uses.into_iter().collect();
-    Ok((json!({"fns": fns, "consts": consts, "const_tys": const_tys, "enums": enums}), uses))
+    Ok((json!({"fns": fns, "consts": consts, "const_tys": const_tys, "enums": enums}), uses, cx.sites))
 }
 
 /// `{src}` → `{outcome}` as `frontend` (the stage that rejected the text), and for an accepted program `prog`
@@ -252,7 +283,7 @@ pub fn typed_ast(case: &Value) -> Value {
         Ok(Ok(prg)) => match guarded(|| program_json(&prg)) {
             Err(p) => json!({"outcome": "ok", "outside": format!("panic@{p}")}),
             Ok(Err(why)) => json!({"outcome": "ok", "outside": why}),
-            Ok(Ok((prog, uses))) => json!({"outcome": "ok", "prog": prog, "uses": uses}),
+            Ok(Ok((prog, uses, sites))) => json!({"outcome": "ok", "prog": prog, "uses": uses, "sites": sites}),
         },
     }
 }
